@@ -1,2 +1,213 @@
-/- Property theorems for C08 (placeholder until the proofs land). -/
-import Avt.Spec.C08
+/-
+  Avt.Props.C08 — SGR attributes and colours reach the printed cells unchanged.
+
+  Specification: `Avt.Spec.C08` (`sgrRefOps`, `paramsOf`, `parseSgrText`, `Pen.obs`, `obsStep`,
+  `obsRef`, `penRef`, `noForeignCells`, …).  Helpers: Avt/Lemmas/C08Pen.lean, C08Decode.lean,
+  C08Cells.lean, C08Text.lean.  All statements are unbounded.
+-/
+import Avt.Lemmas.C08Pen
+import Avt.Lemmas.C08Decode
+import Avt.Lemmas.C08Cells
+import Avt.Lemmas.C08Text
+
+namespace Avt.Props.C08
+open Avt Avt.Spec.C08
+
+/-- **Decoder = reference.**  On every well-formed register file (any number of registers, any
+    sub-parameter counts, any 16-bit values) the register machine `SgrOps::next` never panics and
+    yields exactly the operations the reference decoder reads off the written parameters. -/
+theorem C08_decode {ps : List Param} (h : ∀ q ∈ ps, Param.ok q = true) :
+    Parser.sgrOps ps = some (sgrRefOps (paramsOf ps)) := sgrOps_eq_ref ps h
+
+/-- the same, at the point where the parser dispatches `CSI … m`: the registers in use are decoded -/
+theorem C08_decode_dispatch {p : Parser} (h : PInv p = true) :
+    ∃ ps, p.activeParams = some ps ∧ Parser.sgrOps ps = some (sgrRefOps (paramsOf ps)) := by
+  simp only [PInv, Bool.and_eq_true, beq_iff_eq, decide_eq_true_eq, List.all_eq_true] at h
+  obtain ⟨⟨⟨hl, hc⟩, hok⟩, _⟩ := h
+  refine ⟨p.params.take (p.curParam + 1), ?_, ?_⟩
+  · simp only [Parser.activeParams]; rw [if_pos (by omega)]
+  · exact C08_decode (fun q hq => hok q (List.mem_of_mem_take hq))
+
+/-- **Text = parser = reference.**  Feeding the text of one complete SGR sequence (7-bit `ESC [` or
+    8-bit `0x9b` introducer; digits, ';', ':'; final `m`; any number of parameters and sub-parameters,
+    with the register caps 32 / 6 / 16 bit applied as the code applies them) from the ground state
+    makes the table-driven parser (`Gen.feedArms`, `Gen.csiArms` — regenerated from `parser.rs`)
+    emit exactly one function, `.sgr ops`, with `ops` the reference decoding of the parameters as
+    they are written in the text; the parser is in the ground state again. -/
+theorem C08_text {p : Parser} (hi : PInv p = true) (hs : p.state = .Ground) {txt : List Nat}
+    {ws : List (List Nat)} (h : parseSgrText txt = some ws) :
+    ∃ p', emit p txt = some (p', [.sgr (sgrRefOps ws)]) ∧ p'.state = .Ground :=
+  text_spec hi hs h
+
+/-- **The whole path for one sequence**: text → parser → decoder → pen.  `Vt::feed` over the
+    characters of the sequence changes nothing but the parser registers and the pen, and the pen is
+    the reference pen for the parameters as written. -/
+theorem C08_sequence {v : Vt} (hi : PInv v.parser = true) (hs : v.parser.state = .Ground)
+    (hp : v.terminal.pen.attrs < 32) {txt : List Nat} {ws : List (List Nat)}
+    (h : parseSgrText txt = some ws) :
+    ∃ p', v.feedAll txt
+        = some { parser := p', terminal := { v.terminal with pen := penRef v.terminal.pen (sgrRefOps ws) } }
+      ∧ p'.state = .Ground := by
+  obtain ⟨p', he, hg⟩ := text_spec hi hs h
+  refine ⟨p', ?_, hg⟩
+  rw [feedAll_emit txt v p' _ he]
+  simp only [execAll, Terminal.execute, Terminal.sgr, Option.map_some]
+  rw [foldl_eq_penRef _ _ hp]
+
+/-- **Fold.**  `Terminal::sgr` is the left fold of `applySgr` over the operations, touches nothing
+    but the pen, and the resulting pen is the reference pen (the one whose nine accessors report the
+    reference observations). -/
+theorem C08_fold (t : Terminal) (ops : List SgrOp) :
+    t.execute (.sgr ops) = some { t with pen := ops.foldl Terminal.applySgr t.pen }
+    ∧ (t.sgr ops).pen = ops.foldl Terminal.applySgr t.pen
+    ∧ (t.pen.attrs < 32 → (t.sgr ops).pen = penRef t.pen ops)
+    ∧ (t.pen.attrs < 32 → Pen.obs (t.sgr ops).pen = obsRef (Pen.obs t.pen) ops) :=
+  ⟨rfl, rfl, fun h => foldl_eq_penRef t.pen ops h, fun h => obs_foldl ops t.pen h⟩
+
+/-- **Independence.**  For every operation and every pen (attribute byte inside the five bits in
+    use), the nine accessors after `applySgr` are what `obsStep` — one line per operation, touching
+    only the accessors the property names — says; the proof goes through the generated masks
+    `Gen.italicMask … Gen.inverseMask` (`mask_set`, `mask_unset`). -/
+theorem C08_independent (p : Pen) (op : SgrOp) (h : p.attrs < 32) :
+    Pen.obs (Terminal.applySgr p op) = obsStep (Pen.obs p) op ∧ (Terminal.applySgr p op).attrs < 32 :=
+  ⟨obs_applySgr p op h, attrs_applySgr p op h⟩
+
+/-- the invariant `attrs < 32` holds for the default pen and along every fold -/
+theorem C08_attrs_inv :
+    Pen.default.attrs < 32 ∧ (∀ (p : Pen) (ops : List SgrOp), p.attrs < 32 → (ops.foldl Terminal.applySgr p).attrs < 32) :=
+  ⟨by decide, fun p ops h => attrs_foldl ops p h⟩
+
+/-- spelled out for two representative pairs: setting blink leaves the other eight accessors alone,
+    and bold / faint exclude each other -/
+theorem C08_independent_examples (p : Pen) (h : p.attrs < 32) :
+    (let q := Terminal.applySgr p .setBlink
+     q.isBlink = true ∧ q.isInverse = p.isInverse ∧ q.isItalic = p.isItalic ∧ q.isUnderline = p.isUnderline
+       ∧ q.isStrikethrough = p.isStrikethrough ∧ q.isBold = p.isBold ∧ q.isFaint = p.isFaint
+       ∧ q.fg = p.fg ∧ q.bg = p.bg)
+    ∧ (let q := Terminal.applySgr p .setFaint
+       q.isFaint = true ∧ q.isBold = false ∧ q.isBlink = p.isBlink ∧ q.fg = p.fg) := by
+  have h1 := obs_applySgr p .setBlink h
+  have h2 := obs_applySgr p .setFaint h
+  simp only [Pen.obs, obsStep, Prod.mk.injEq] at h1 h2
+  obtain ⟨a1, a2, a3, a4, a5, a6, a7, a8, a9⟩ := h1
+  obtain ⟨b1, b2, b3, b4, b5, b6, b7, b8, b9⟩ := h2
+  exact ⟨⟨a8, a9, a5, a6, a7, a3, a4, a1, a2⟩, ⟨b4, b3, b8, b1⟩⟩
+
+/-- **The accessors determine the pen**, so "reports exactly that pen" is meaningful. -/
+theorem C08_obs_injective {p q : Pen} (hp : p.attrs < 32) (hq : q.attrs < 32) (h : Pen.obs p = Pen.obs q) :
+    p = q := obs_injective p q hp hq h
+
+/-- **Cells, primitives.**  A blank carries the pen it is made with; `Line.blank` consists of such
+    blanks; `Line.clear` stores them in the whole range. -/
+theorem C08_cells_primitives (pen : Pen) :
+    (Cell.blank pen).pen = pen
+    ∧ (∀ cols, ∀ c ∈ (Line.blank cols pen).cells, c = Cell.blank pen)
+    ∧ (∀ (l l' : Line) (a b : Nat), l.clear a b pen = some l' →
+        ∀ i, a ≤ i → i < b → l'.cells[i]? = some (Cell.blank pen)) := by
+  refine ⟨rfl, ?_, ?_⟩
+  · intro cols c hc
+    simp only [Line.blank, List.mem_replicate] at hc
+    exact hc.2
+  · intro l l' a b h i h1 h2
+    exact lineClear_get h i h1 h2
+
+/-- **Cells.**  After a printing or blanking function (`print`, `rep`, `ich`, `dch`, `ech`, `ed`,
+    `el`, `il`, `dl`, `su`, `sd`, `lf`, `nel`, `ri` — every place where the model calls `Cell.blank`,
+    `Line.blank`, `Line.clear`, `Line.print`, `Line.insert`, `Line.delete` from `Terminal.execute`,
+    except DECALN, which fills with the default pen by definition) every cell of the view either
+    carries the current pen or is a cell that was already in the view; the pen itself is unchanged.
+    This is the predicate the oracle evaluates (`noForeignCells`). -/
+theorem C08_cells {t t' : Terminal} {f : Function} (hw : writesWithPen f = true)
+    (h : t.execute f = some t') :
+    noForeignCells t.pen t.buffer.view t'.buffer.view = true ∧ t'.pen = t.pen := by
+  have hs : St (fun c => c.pen = t.pen ∨ ∃ l0 ∈ t.buffer.view, c ∈ l0.cells) t.pen t :=
+    ⟨rfl, fun l hl c hc => Or.inr ⟨l, hl, hc⟩⟩
+  have := writes_ok hw (fun _ => Or.inl rfl) hs h
+  exact ⟨(noForeignCells_iff _ _ _).mpr this.2, this.1⟩
+
+/-- **The printed cell.**  A single `print` stores a cell carrying the current pen at the position
+    the oracle inspects (`printedCell`: the column left of the new cursor, or the last column when
+    auto-wrap is off and the cursor is already there), in replace and in insert mode, with or without
+    a pending wrap / scroll before it. -/
+theorem C08_print_cell {t t' : Terminal} {ch : Nat} (hi : TInv t = true) (h : t.execute (.print ch) = some t') :
+    ∃ c, printedCell t t' = some c ∧ c.pen = t.pen :=
+  print_cell (tinv_bufcols hi) h
+
+/-- **REP.**  The repeated character is re-printed with the *current* pen, not with the pen of the
+    cell it is copied from: the last copy (left of the new cursor, auto-wrap on) carries `t.pen`. -/
+theorem C08_rep_cell {t t' : Terminal} {n : Nat} (hi : TInv t = true) (haw : t.autoWrapMode = true)
+    (hc : t.cursor.col > 0) (h : t.execute (.rep n) = some t') :
+    ∃ c, printedCell t t' = some c ∧ c.pen = t.pen :=
+  rep_cell (tinv_bufcols hi) haw hc h
+
+/-- the same for any predicate: whatever holds for every cell of the view and for every cell carrying
+    the current pen still holds for every cell of the view afterwards -/
+theorem C08_cells_general {Q : Cell → Prop} {t t' : Terminal} {f : Function} (hw : writesWithPen f = true)
+    (hQ : ∀ c, Q ⟨c, t.pen⟩) (hv : ∀ l ∈ t.buffer.view, ∀ c ∈ l.cells, Q c) (h : t.execute f = some t') :
+    ∀ l ∈ t'.buffer.view, ∀ c ∈ l.cells, Q c :=
+  (writes_ok hw hQ ⟨rfl, hv⟩ h).2
+
+/-! ### the hypotheses are satisfiable on concrete non-trivial data -/
+
+/-- registers after `CSI 1;38;5;200;48:2::1:2:300;38;2;7 m` (the last colour is truncated) -/
+def exRegs : List Param :=
+  [⟨0, [1, 0, 0, 0, 0, 0]⟩, ⟨0, [38, 0, 0, 0, 0, 0]⟩, ⟨0, [5, 0, 0, 0, 0, 0]⟩, ⟨0, [200, 0, 0, 0, 0, 0]⟩,
+   ⟨5, [48, 2, 0, 1, 2, 300]⟩, ⟨0, [38, 0, 0, 0, 0, 0]⟩, ⟨0, [2, 0, 0, 0, 0, 0]⟩, ⟨0, [7, 0, 0, 0, 0, 0]⟩]
+
+example : (∀ q ∈ exRegs, Param.ok q = true)
+    ∧ Parser.sgrOps exRegs
+        = some [.setBold, .setFg (.indexed 200), .setBg (.rgb 1 2 44), .setInverse] := by decide
+
+example : sgrRefOps (paramsOf exRegs)
+    = [.setBold, .setFg (.indexed 200), .setBg (.rgb 1 2 44), .setInverse] := by
+  have h := C08_decode (ps := exRegs) (by decide)
+  have h' : Parser.sgrOps exRegs
+      = some [.setBold, .setFg (.indexed 200), .setBg (.rgb 1 2 44), .setInverse] := by decide
+  rw [h'] at h
+  exact (Option.some.inj h).symm
+
+/-- `CSI 1;38;5;200;48:2::1:2:300;38;2;7 m` as text -/
+def exText : List Nat :=
+  [0x9b, 0x31, 0x3b, 0x33, 0x38, 0x3b, 0x35, 0x3b, 0x32, 0x30, 0x30, 0x3b, 0x34, 0x38, 0x3a, 0x32, 0x3a, 0x3a,
+   0x31, 0x3a, 0x32, 0x3a, 0x33, 0x30, 0x30, 0x3b, 0x33, 0x38, 0x3b, 0x32, 0x3b, 0x37, 0x6d]
+
+example : PInv Parser.new = true ∧ Parser.new.state = .Ground
+    ∧ parseSgrText exText = some [[1], [38], [5], [200], [48, 2, 0, 1, 2, 300], [38], [2], [7]] := by decide
+
+/-- a non-default pen inside the invariant, and a terminal that prints with it -/
+def exPen : Pen := { fg := some (.indexed 3), bg := none, intensity := .faint, attrs := 9 }
+
+example : exPen.attrs < 32
+    ∧ Pen.obs (Terminal.applySgr exPen .resetBlink)
+        = (some (.indexed 3), none, false, true, true, false, false, false, false) := ⟨by decide, rfl⟩
+
+example : (do
+    let t ← Terminal.new 3 2 none
+    let t ← t.execute (.sgr [.setUnderline])
+    let t ← t.execute (.print 0x61)
+    let t ← t.execute (.print 0x62)
+    let t ← t.execute (.print 0x63)
+    let t1 ← t.execute (.print 0x64)      -- wraps first
+    pure (TInv t && t.pendingWrap
+          && (match printedCell t t1 with | some c => c.pen == t.pen && c.ch == 0x64 | none => false))) = some true := by
+  decide
+
+example : (do
+    let t ← Terminal.new 4 2 none
+    let t ← t.execute (.print 0x61)
+    let t ← t.execute (.sgr [.setFg (.rgb 1 2 3)])
+    let t1 ← t.execute (.rep 2)
+    pure (TInv t && t.autoWrapMode && decide (t.cursor.col > 0)
+          && (match printedCell t t1 with | some c => c.pen == t.pen && c.ch == 0x61 | none => false))) = some true := by
+  decide
+
+example : (do
+    let t ← Terminal.new 4 2 none
+    let t ← t.execute (.sgr [.setItalic, .setBg (.indexed 9)])
+    let t1 ← t.execute (.print 0x61)
+    let t2 ← t1.execute (.el .toRight)
+    pure (writesWithPen (.el .toRight) && noForeignCells t1.pen t1.buffer.view t2.buffer.view
+          && t2.buffer.view.any fun l => l.cells.any fun c => c.pen != Pen.default)) = some true := by
+  decide
+
+end Avt.Props.C08
